@@ -6,17 +6,18 @@
   the last recorded transition, or the zone's `ttinfo_std` is the last transition's type.
   All statements hold for ALL well-formed tables (`Spec.wf`), all wall times, both folds.
 
-  Proved: exists_iff (both directions, per fold), fold_selects (earlier ↦ fold 0, later ↦ fold 1,
-  and the folds lead back to exactly those instants), fold_distinguishes, resolve_imaginary on
-  existing times.
-  Stated in DESIGN but NOT proved here (evaluated on the implementation by the oracle sweep against
-  `Spec.pre` on every run): pre_card_le_two, ambiguous_iff (is_ambiguous ↔ |pre| = 2),
-  fold_irrelevant (|pre| = 1 → both folds give one offset), and the gap half of
-  resolve_imaginary_spec (result = w + gap width, under "no other change within 24 h").
+  Proved: pre_card_le_two, ambiguous_iff (is_ambiguous ↔ |pre| = 2), fold_irrelevant (|pre| ≠ 2 →
+  both folds give one offset / abbreviation / dst), exists_iff (datetime_exists = (pre ≠ ∅), either
+  fold), fold_selects (earlier ↦ fold 0, later ↦ fold 1, and the folds lead back to exactly those
+  instants), fold_distinguishes, resolve_imaginary on existing times and inside a gap
+  (resolve_imaginary_gap: gap ≤ 24 h, no other change within 24 h; wider gaps are D-C05g).
+  `CovWall r w`: the wall time lies below the reading at which the last recorded transition takes
+  effect, or `ttinfo_std` is the last transition's type.
 -/
 import DateutilVerif.Proofs.ZonesBuild
 import DateutilVerif.Proofs.ZonesFold
 import DateutilVerif.Proofs.SpecPre
+import DateutilVerif.Proofs.ZonesRaw
 
 namespace C05
 open TZ Spec
@@ -198,6 +199,220 @@ theorem resolve_imaginary_of_exists (z : ZoneOps) (w : Wall) (h : datetimeExists
   unfold resolveImaginary
   simp [h, bind, Except.bind, pure, Except.pure]
 
+/-! ### counting pre-images -/
+
+/-- **pre_card_le_two.** Under `Spec.wf` every wall time is read by at most two UTC instants. -/
+theorem pre_card_le_two (r : Raw) (hwf : Spec.wf r = true) (w : Int) : (pre r w).length ≤ 2 := by
+  apply length_le_two_of (pre_nodup r w)
+  intro t₁ h₁ t₂ h₂ t₃ h₃
+  rw [Spec.mem_pre_iff] at h₁ h₂ h₃
+  by_cases hne : r.trans = []
+  · -- no transition: one offset for all instants
+    left
+    simp only [fromutcSpec, offsetAt, typeAt, hne, List.filter_nil, List.getLast?_nil] at h₁ h₂
+    cases hft : firstType r with
+    | none => rw [hft] at h₁; simp at h₁
+    | some ty => rw [hft] at h₁ h₂; simp at h₁ h₂; omega
+  · obtain ⟨b, s, f, hf, hfb, hc, hw⟩ := build_coherent r hwf hne
+    rw [fromutcSpec_iff r hwf hf hfb hc hw] at h₁ h₂ h₃
+    have s₁ := hc.pre_seg hw w t₁ h₁
+    have s₂ := hc.pre_seg hw w t₂ h₂
+    have s₃ := hc.pre_seg hw w t₃ h₃
+    -- two of the three lie in the same segment, hence coincide
+    have key : ∀ a c : Int, w = a + Bo (build r) b (bisectRight (build r).utc a) →
+        w = c + Bo (build r) b (bisectRight (build r).utc c) →
+        bisectRight (build r).utc a = bisectRight (build r).utc c → a = c := by
+      intro a c ha hc' e; rw [e] at ha; omega
+    rcases s₁ with e₁ | e₁ <;> rcases s₂ with e₂ | e₂ <;> rcases s₃ with e₃ | e₃
+    all_goals first
+      | exact Or.inl (key _ _ h₁ h₂ (by omega))
+      | exact Or.inr (Or.inl (key _ _ h₁ h₃ (by omega)))
+      | exact Or.inr (Or.inr (key _ _ h₂ h₃ (by omega)))
+
+/-- two pre-images ⇔ the two folds select different segments -/
+theorem two_pre_iff (r : Raw) (hwf : Spec.wf r = true) (hne : r.trans ≠ []) (w : Int) :
+    (pre r w).length = 2 ↔ bisectRight (build r).wall1 w ≠ bisectRight (build r).wall0 w := by
+  obtain ⟨b, s, f, hf, hfb, hc, hw⟩ := build_coherent r hwf hne
+  rw [length_eq_two_iff (pre_nodup r w) (pre_card_le_two r hwf w)]
+  have hkn : bisectRight (build r).wall0 w ≤ (build r).utc.length := by
+    rw [← hc.w0_len]; exact bisectRight_le _ _
+  have hk1 := hc.k1_eq hw w
+  obtain ⟨k1, k2⟩ := (hc.count_w0 hw w _ hkn).mp rfl
+  constructor
+  · intro ⟨t₁, t₂, hd, h₁, h₂⟩
+    rw [Spec.mem_pre_iff, fromutcSpec_iff r hwf hf hfb hc hw] at h₁ h₂
+    have s₁ := hc.pre_seg hw w t₁ h₁
+    have s₂ := hc.pre_seg hw w t₂ h₂
+    have hdiff : bisectRight (build r).utc t₁ ≠ bisectRight (build r).utc t₂ := by
+      intro e; rw [e] at h₁; omega
+    -- one of them lies in segment k0+1, which therefore reads w
+    have hP : bisectRight (build r).wall0 w < (build r).utc.length ∧
+        Lo (build r) b (bisectRight (build r).wall0 w) ≤ w := by
+      have aux : ∀ t, w = t + Bo (build r) b (bisectRight (build r).utc t) →
+          bisectRight (build r).utc t = bisectRight (build r).wall0 w + 1 →
+          bisectRight (build r).wall0 w < (build r).utc.length ∧
+            Lo (build r) b (bisectRight (build r).wall0 w) ≤ w := by
+        intro t ht e
+        have hle := bisectRight_le (build r).utc t
+        have r1 := (hc.pre_reads hw w t ht).1
+        rw [e] at r1 hle
+        exact ⟨by omega, by simpa using r1 (by omega)⟩
+      rcases s₁ with e₁ | e₁
+      · rcases s₂ with e₂ | e₂
+        · exact absurd (e₁.trans e₂.symm) hdiff
+        · exact aux t₂ h₂ e₂
+      · exact aux t₁ h₁ e₁
+    rw [if_pos hP] at hk1; omega
+  · intro hdk
+    by_cases hP : bisectRight (build r).wall0 w < (build r).utc.length ∧
+        Lo (build r) b (bisectRight (build r).wall0 w) ≤ w
+    · have hlo : 0 < bisectRight (build r).wall0 w →
+          Lo (build r) b (bisectRight (build r).wall0 w - 1) ≤ w := by
+        intro h0
+        have := hc.lo_mono hw (bisectRight (build r).wall0 w - 1) (bisectRight (build r).wall0 w) (by omega) hP.1
+        omega
+      have c0 := hc.seg_pre hw w _ hkn hlo k2
+      have c1 := hc.seg_pre hw w (bisectRight (build r).wall0 w + 1) (by omega)
+        (fun _ => by simpa using hP.2)
+        (fun hn => by have := hc.hi_step hw _ hn; have := k2 hP.1; omega)
+      refine ⟨w - Bo (build r) b (bisectRight (build r).wall0 w),
+              w - Bo (build r) b (bisectRight (build r).wall0 w + 1), ?_, ?_, ?_⟩
+      · have h2 := k2 hP.1
+        have h3 := hP.2
+        simp only [Hi, Lo] at h2 h3
+        omega
+      · rw [Spec.mem_pre_iff, fromutcSpec_iff r hwf hf hfb hc hw, c0]; omega
+      · rw [Spec.mem_pre_iff, fromutcSpec_iff r hwf hf hfb hc hw, c1]; omega
+    · rw [if_neg hP] at hk1; exact absurd hk1 hdk
+
+/-- **ambiguous_iff.** `is_ambiguous` holds exactly for the wall times with two pre-images. -/
+theorem ambiguous_iff (r : Raw) (hwf : Spec.wf r = true) (hne : r.trans ≠ []) (w : Int) :
+    isAmbiguous (build r) w = true ↔ (pre r w).length = 2 := by
+  obtain ⟨b, s, f, hf, hfb, hc, hw⟩ := build_coherent r hwf hne
+  rw [hc.isAmbiguous_eq hw w, two_pre_iff r hwf hne w]
+  simp
+
+/-- **fold_irrelevant.** Unless there are two pre-images, fold has no effect on the offset
+    (in particular when there is exactly one). -/
+theorem fold_irrelevant (r : Raw) (hwf : Spec.wf r = true) (hne : r.trans ≠ []) (w : Int)
+    (h : (pre r w).length ≠ 2) :
+    utcoffset (build r) ⟨w, false⟩ = utcoffset (build r) ⟨w, true⟩ ∧
+    tzname (build r) ⟨w, false⟩ = tzname (build r) ⟨w, true⟩ ∧
+    dst (build r) ⟨w, false⟩ = dst (build r) ⟨w, true⟩ := by
+  rw [Ne, two_pre_iff r hwf hne w, Decidable.not_not] at h
+  have e : findTtinfo (build r) ⟨w, false⟩ = findTtinfo (build r) ⟨w, true⟩ := by
+    simp only [findTtinfo, findLastWall, wallOf, h, Bool.false_eq_true, if_false, if_true]
+  simp only [utcoffset, tzname, dst, e, and_self]
+
+/-- **exists_iff.** For either fold, `datetime_exists` is true exactly when the wall time has a
+    pre-image. -/
+theorem exists_iff (r : Raw) (hwf : Spec.wf r = true) (hne : r.trans ≠ []) (w : Int) (f : Bool)
+    (hcov : CovWall r w) :
+    datetimeExists (build r).ops ⟨w, f⟩ = .ok (decide (pre r w ≠ [])) := by
+  obtain ⟨b, s, f0, hf, hfb, hc, hw⟩ := build_coherent r hwf hne
+  rw [hc.exists_eq hw w f (covWall_covered r hwf hf hfb hc hw w hcov w (Int.le_refl _) false)
+        (covWall_covered r hwf hf hfb hc hw w hcov w (Int.le_refl _) true)]
+  congr 1
+  rw [decide_eq_decide, ← hc.hasPre_iff hw w]
+  constructor
+  · intro ⟨t, ht⟩ hnil
+    have : t ∈ pre r w := by rw [Spec.mem_pre_iff, fromutcSpec_iff r hwf hf hfb hc hw]; exact ht
+    rw [hnil] at this; simp at this
+  · intro hnn
+    cases hl : pre r w with
+    | nil => exact absurd hl hnn
+    | cons t rest =>
+        have : t ∈ pre r w := by rw [hl]; simp
+        rw [Spec.mem_pre_iff, fromutcSpec_iff r hwf hf hfb hc hw] at this
+        exact ⟨t, this⟩
+
+/-- **resolve_imaginary_spec (gap half).** `w` lies in the gap of the change at `u` (offset
+    `ob` before, `oa` after: `u + ob ≤ w < u + oa`, so it has no pre-image); the gap is at most
+    24 h wide; no other change within 24 h: the next transition is at least 24 h later and, in
+    wall-clock terms, the previous one took effect at least 24 h before the gap starts.  Then
+    `resolve_imaginary` moves `w` forward by exactly the gap width, and the result exists.
+    (Gaps wider than 24 h: known finding D-C05g.) -/
+theorem resolve_imaginary_gap (r : Raw) (hwf : Spec.wf r = true) (w : Int) (f : Bool) (u ob oa : Int)
+    (hu : u ∈ r.trans.map (fun p => p.1))
+    (hob : offsetAt r (u - 1) = some ob) (hoa : offsetAt r u = some oa)
+    (hgap : u + ob ≤ w ∧ w < u + oa) (hwidth : oa - ob ≤ 86400)
+    (hnext : ∀ u' ∈ r.trans.map (fun p => p.1), u < u' → u + 86400 ≤ u')
+    (hprev : ∀ u' ∈ r.trans.map (fun p => p.1), u' < u →
+      ∀ ob', offsetAt r (u' - 1) = some ob' → u' + ob' + 86400 ≤ u + ob)
+    (hcov : LastStd (build r) ∨ ∃ u' ∈ r.trans.map (fun p => p.1), u < u') :
+    pre r w = [] ∧
+    resolveImaginary (build r).ops ⟨w, f⟩ = .ok ⟨w + (oa - ob), false⟩ ∧
+    pre r (w + (oa - ob)) ≠ [] := by
+  have hne : r.trans ≠ [] := by intro h; rw [h] at hu; simp at hu
+  obtain ⟨b, s, f0, hf, hfb, hc, hw⟩ := build_coherent r hwf hne
+  have hutc : (build r).utc = r.trans.map (fun p => p.1) := rfl
+  rw [← hutc] at hu hnext hprev hcov
+  obtain ⟨i, hi, hUi⟩ := mem_U hu
+  subst hUi
+  -- the offsets around transition i
+  have e1 := offsetAt_eq r hwf hf hfb hc hw (U (build r) i)
+  have e2 := offsetAt_eq r hwf hf hfb hc hw (U (build r) i - 1)
+  rw [hc.count_at hw i hi, hoa] at e1
+  rw [hc.count_before hw i hi, hob] at e2
+  have eoa := Option.some.inj e1
+  have eob := Option.some.inj e2
+  -- the fold=0 count of w is i+1
+  have hk : bisectRight (build r).wall0 w = i + 1 := by
+    rw [hc.count_w0 hw w (i + 1) (by omega)]
+    refine ⟨fun _ => by simp only [Nat.add_sub_cancel, Hi]; omega, fun hn => ?_⟩
+    have := hc.utc_lt hw i (i + 1) (by omega) hn
+    simp only [Hi]; omega
+  have hlo : Lo (build r) b i = U (build r) i + oa := by simp only [Lo]; omega
+  have hhi : Hi (build r) b i = U (build r) i + ob := by simp only [Hi]; omega
+  have hcovd : Covered (build r) s (i + 1) := by
+    rcases hcov with h | ⟨u', hu', hlt⟩
+    · right; unfold LastStd at h; rw [hc.hs] at h; exact Option.some.inj h
+    · left
+      obtain ⟨j, hj, hUj⟩ := mem_U hu'
+      subst hUj
+      by_cases hji : j ≤ i
+      · exfalso
+        by_cases e : j = i
+        · subst e; omega
+        · have := hc.utc_lt hw j i (by omega) hi; omega
+      · omega
+  have main := hc.resolve_gap hw w f (by omega)
+    (by rw [hk]; simp only [Nat.add_sub_cancel]; omega)
+    (by rw [hk]; simp only [Nat.add_sub_cancel]; omega)
+    (by rw [hk]; intro hn
+        simp only [Nat.add_sub_cancel]
+        have := hnext _ (U_mem (i + 1) hn) (hc.utc_lt hw i (i + 1) (by omega) hn)
+        simp only [Hi, Lo]; omega)
+    (by rw [hk]; intro h1
+        have e : i + 1 - 2 = i - 1 := by omega
+        simp only [Nat.add_sub_cancel, e]
+        have hi1 : i - 1 < (build r).utc.length := by omega
+        have e3 := offsetAt_eq r hwf hf hfb hc hw (U (build r) (i - 1) - 1)
+        rw [hc.count_before hw (i - 1) hi1] at e3
+        have := hprev _ (U_mem (i - 1) hi1) (hc.utc_lt hw (i - 1) i (by omega) hi) _ e3
+        simp only [Hi]; omega)
+    (by rw [hk]; exact hcovd)
+  rw [hk] at main
+  simp only [Nat.add_sub_cancel] at main
+  rw [← eoa, ← eob] at main
+  obtain ⟨m1, t, m2⟩ := main
+  refine ⟨?_, m1, ?_⟩
+  · -- no pre-image
+    cases hl : pre r w with
+    | nil => rfl
+    | cons t' rest =>
+        exfalso
+        have : t' ∈ pre r w := by rw [hl]; simp
+        rw [Spec.mem_pre_iff, fromutcSpec_iff r hwf hf hfb hc hw] at this
+        have := (hc.hasPre_iff hw w).mp ⟨t', this⟩
+        rw [hk] at this
+        simp only [Nat.add_sub_cancel] at this
+        omega
+  · intro hnil
+    have : t ∈ pre r (w + (oa - ob)) := by
+      rw [Spec.mem_pre_iff, fromutcSpec_iff r hwf hf hfb hc hw]; exact m2
+    rw [hnil] at this; simp at this
+
 /-! non-vacuity: 2000100 is read twice in `exR` (set back one hour at 2000000) -/
 def exR : Raw := { trans := [(1000000, 1), (2000000, 0), (3000000, 1)],
                    types := [⟨0, 0, [65], false, false, 0⟩, ⟨3600, 1, [66], false, false, 0⟩] }
@@ -205,5 +420,14 @@ example : Spec.wf exR = true ∧ pre exR 2000100 = [2000100, 1996500] ∧ pre ex
 example : fromutcSpec exR 1996500 = some 2000100 ∧ fromutcSpec exR 2000100 = some 2000100 := by decide
 example : datetimeExists (build exR).ops ⟨1001800, false⟩ = .ok false := by decide
 example : Cov exR 1996500 ∧ Cov exR 2000100 := ⟨Or.inl ⟨3000000, by decide, by decide⟩, Or.inl ⟨3000000, by decide, by decide⟩⟩
+
+/-- the gap of `exR` at 1000000 (+0 → +1 h): 1001800 is imaginary and resolves to 1005400;
+    the hypotheses of `resolve_imaginary_gap` are satisfiable -/
+example : offsetAt exR (1000000 - 1) = some 0 ∧ offsetAt exR 1000000 = some 3600 ∧
+    (1000000 : Int) ∈ exR.trans.map (fun p => p.1) ∧
+    resolveImaginary (build exR).ops ⟨1001800, false⟩ = .ok ⟨1005400, false⟩ ∧
+    pre exR 1005400 = [1001800] := by decide
+example : isAmbiguous (build exR) 2000100 = true ∧ (pre exR 2000100).length = 2 := by decide
+example : CovWall exR 2000100 := Or.inr ⟨3000000, 0, 3600, by decide, by decide, by decide, by decide⟩
 
 end C05
